@@ -7,10 +7,12 @@ import (
 )
 
 // uriT is one template of a redirect-URI class.  Placeholders:
-//   {D}  a configured root domain (no leading dot)     {DU} the same in upper case
-//   {DM} the same with one letter upper-cased          {DX} the domain minus its first character
-//   {M}  the marker that lets the projection recognise this URI in a Location
-//   {R}  a random DNS label                            {E}  a foreign host
+//
+//	{D}  a configured root domain (no leading dot)     {DU} the same in upper case
+//	{DM} the same with one letter upper-cased          {DX} the domain minus its first character
+//	{M}  the marker that lets the projection recognise this URI in a Location
+//	{R}  a random DNS label                            {E}  a foreign host
+//
 // NS marks templates that Go's url.Parse(...).String() does not reproduce byte for
 // byte; /start verifies the signature over the re-serialised string, so they are
 // not used there (they would only produce model drift, never an alarm).
@@ -122,14 +124,14 @@ var uriPool = []uriT{
 	{"ipv6", "http://[fe80::1%25en0]/{M}", false},
 	{"ipv6", "//[::1]/{M}?.{D}", false},
 	// ---- no authority for Go (Host == ""); a browser may still find a host
-	{"nohost", "https:foo.{D}/{M}", false},           // browser: in
-	{"nohost", "https:///foo.{D}/{M}", false},        // browser: in
-	{"nohost", "https:/foo.{D}/{M}", false},          // browser: in
-	{"nohost", "https:///{E}/{M}", false},            // browser: out
-	{"nohost", "///{E}/{M}", false},                  // browser: out
-	{"nohost", "/\\{E}/{M}", false},                  // browser: out
-	{"nohost", "https:{E}/{M}", false},               // browser: out
-	{"nohost", "http:/\\{E}/{M}", false},             // browser: out
+	{"nohost", "https:foo.{D}/{M}", false},    // browser: in
+	{"nohost", "https:///foo.{D}/{M}", false}, // browser: in
+	{"nohost", "https:/foo.{D}/{M}", false},   // browser: in
+	{"nohost", "https:///{E}/{M}", false},     // browser: out
+	{"nohost", "///{E}/{M}", false},           // browser: out
+	{"nohost", "/\\{E}/{M}", false},           // browser: out
+	{"nohost", "https:{E}/{M}", false},        // browser: out
+	{"nohost", "http:/\\{E}/{M}", false},      // browser: out
 	{"nohost", "/{M}", false},
 	{"nohost", "{M}", false},
 	{"nohost", "", false},
@@ -142,25 +144,25 @@ var uriPool = []uriT{
 	{"nohost", "foo.{D}/{M}", false},
 	{"nohost", "/%2f{E}/{M}", false},
 	// ---- url.Parse fails (or the host is invalid); readings differ
-	{"unparsable", "https://foo.{D}/\n{M}", false},            // in
-	{"unparsable", "https://foo.\t{D}/{M}", false},            // in
-	{"unparsable", "https://foo.{D}\\.{E}/{M}", false},        // browser: host foo.D, path /.E  -> in
-	{"unparsable", "https://{E}%2f.{D}/{M}", false},           // RFC: reg-name under D -> in
-	{"unparsable", "https://foo.{D}/{M}%zz", false},           // in (bad escape in path)
-	{"unparsable", " https://foo.{D}/{M}", false},             // in (leading space)
-	{"unparsable", "https://{E}\\@foo.{D}/{M}", false},        // browser: out
-	{"unparsable", "https://foo.{D}\t.{E}/{M}", false},        // browser: out
-	{"unparsable", "https://foo.{D}\n@{E}/{M}", false},        // out
-	{"unparsable", "https://{E}/{M}\x7f", false},              // out
-	{"unparsable", "\thttps://{E}/{M}", false},                // out
-	{"unparsable", "https://{E}/{M}%", false},                 // out
-	{"unparsable", "https://%zz.{D}/{M}", false},              // none
-	{"unparsable", "https://foo.{D}:port/{M}", false},         // none
-	{"unparsable", "https://[::1/{M}", false},                 // none
-	{"unparsable", "https://foo .{D}/{M}", false},             // none
-	{"unparsable", "ht!tp://foo.{D}/{M}", false},              // none (first segment with colon)
-	{"unparsable", "://foo.{D}/{M}", false},                   // none
-	{"unparsable", "https://foo.{D}<>/{M}", false},            // none: '<' is not a host character for either reader... Go rejects it too
+	{"unparsable", "https://foo.{D}/\n{M}", false},     // in
+	{"unparsable", "https://foo.\t{D}/{M}", false},     // in
+	{"unparsable", "https://foo.{D}\\.{E}/{M}", false}, // browser: host foo.D, path /.E  -> in
+	{"unparsable", "https://{E}%2f.{D}/{M}", false},    // RFC: reg-name under D -> in
+	{"unparsable", "https://foo.{D}/{M}%zz", false},    // in (bad escape in path)
+	{"unparsable", " https://foo.{D}/{M}", false},      // in (leading space)
+	{"unparsable", "https://{E}\\@foo.{D}/{M}", false}, // browser: out
+	{"unparsable", "https://foo.{D}\t.{E}/{M}", false}, // browser: out
+	{"unparsable", "https://foo.{D}\n@{E}/{M}", false}, // out
+	{"unparsable", "https://{E}/{M}\x7f", false},       // out
+	{"unparsable", "\thttps://{E}/{M}", false},         // out
+	{"unparsable", "https://{E}/{M}%", false},          // out
+	{"unparsable", "https://%zz.{D}/{M}", false},       // none
+	{"unparsable", "https://foo.{D}:port/{M}", false},  // none
+	{"unparsable", "https://[::1/{M}", false},          // none
+	{"unparsable", "https://foo .{D}/{M}", false},      // none
+	{"unparsable", "ht!tp://foo.{D}/{M}", false},       // none (first segment with colon)
+	{"unparsable", "://foo.{D}/{M}", false},            // none
+	{"unparsable", "https://foo.{D}<>/{M}", false},     // none: '<' is not a host character for either reader... Go rejects it too
 }
 
 // outsideHost is the host of the fixtures that are served outside the proxy root domains
